@@ -59,6 +59,11 @@ def gen_envs(rng, n_envs, quick=True):
                 crash["rules"] = [{"id": "crasht", "call": "write", "pat": "*.mmm", "nth": str(k), "act": "short:%d" % sub.range(1, 7)},
                                   {"id": "crash", "call": "write", "pat": "*.mmm", "nth": str(k + 1), "act": "kill"}]
             env["crash"] = crash
+        # how the path is spelled on the command line (a stream of its own again): a doubled or dotted separator behind the
+        # project directory, a `./`, `.//` or `././` in front of a bare file name
+        sp = core.Rng(core.derive(int(env["seed"][:16], 16), "spelling"))
+        env["sep"] = sp.weighted([("/", 6), ("//", 1), ("/./", 1)])
+        env["prefix"] = sp.weighted([("", 8), ("./", 1), (".//", 1), ("././", 1)])
         envs.append(env)
     return envs
 
@@ -98,8 +103,8 @@ def invocation(env, files, entry):
     compile_flags = ["--verbose"] if verbose else ["--quick"]
     if sub:
         files = {sub + "/" + k: v for k, v in files.items()}
-        return files, "", sub + "/" + entry, run_flags, compile_flags, dict(env.get("vars") or {})
-    return files, os.path.dirname(entry), os.path.basename(entry), run_flags, compile_flags, dict(env.get("vars") or {})
+        return files, "", sub + env.get("sep", "/") + entry, run_flags, compile_flags, dict(env.get("vars") or {})
+    return files, os.path.dirname(entry), (env.get("prefix", "") if env.get("start") != "gone" else "") + os.path.basename(entry), run_flags, compile_flags, dict(env.get("vars") or {})
 
 
 def run_case(case):
